@@ -11,6 +11,8 @@ import Kingdon.Model.KPoly
 import Kingdon.Model.Construct
 import Kingdon.Model.Graph
 import Kingdon.Model.Api
+import Kingdon.Model.Composite
+import Kingdon.Model.Hitzer
 open Kingdon
 
 def hexDigit? (ch : Char) : Option Nat :=
@@ -158,6 +160,23 @@ partial def renderResult : Api.Result String → String
   | .mv x => x
   | .seq t xs => (if t then "(" else "[") ++ String.intercalate " " (xs.map renderResult) ++ (if t then ")" else "]")
 
+/-- a stored kingdon polynomial as an executable normal-form polynomial over variable ids -/
+def kpolyToPoly (ids : List (String × Nat)) (p : KP.Poly) : Poly :=
+  p.foldl (fun acc m =>
+    acc + m.vars.foldl (fun t v => t * Poly.var ((ids.lookup v).getD 999999)) (Poly.const m.coeff)) 0
+
+/-- render a symbolic multivector whose denominators are all 1; `none` if some denominator is not the constant 1 -/
+def renderRMV (ids : List (String × Nat)) (x : MV KP.RPoly) : String :=
+  if x.all (fun kv => kv.2.denom == [⟨1, []⟩]) then
+    let y : MV Poly := x.map fun kv => (kv.1, kpolyToPoly ids kv.2.numer)
+    let y := y.filter fun kv => !kv.2.isZero
+    let ks := (y.map (·.1)).eraseDups.mergeSort
+    if ks.isEmpty then "0" else
+    String.intercalate ";" (ks.map fun k =>
+      let p : Poly := (y.filter (·.1 == k)).foldl (fun acc kv => acc + kv.2) 0
+      s!"{k}={p.render}")
+  else "non-unit-denominator"
+
 def renderMV (x : MV Poly) : String :=
   let x := x.filter fun (_, p) => !p.isZero
   let ks := (x.map (·.1)).eraseDups.mergeSort
@@ -232,6 +251,25 @@ def step (line : String) : String :=
     | some c, some gs, some kx => renderMV (gradeSel c gs (symMV 0 kx))
     | _, _, _ => "bad-op"
   | "kpoly" :: prog => KP.runProgram prog
+  | ["hitzer", cs, kx] =>
+    match parseCfg cs, parseNatList kx with
+    | some c, some kx =>
+      let x := symMV 0 kx
+      match hitzerNum c x, hitzerDenom c x with
+      | some num, some den => "num=" ++ renderMV num ++ "|den=" ++ den.render
+      | _, _ => "NotImplementedError"
+    | _, _ => "bad-op"
+  | ["gen6", opn, cs, kx, ky] =>
+    match parseCfg cs, parseNatList kx, parseNatList ky with
+    | some c, some kx, some ky =>
+      let ids := (kx.zipIdx.map fun (k, i) => ("a" ++ Gen6.suffixOf (c.nameOf k), i)) ++
+                 (ky.zipIdx.map fun (k, i) => ("b" ++ Gen6.suffixOf (c.nameOf k), 1000 + i))
+      match opn with
+      | "sw" => renderRMV ids (Gen6.swGen c kx ky)
+      | "proj" => renderRMV ids (Gen6.projGen c kx ky)
+      | "normsq" => renderRMV ids (Gen6.normsqGen c kx)
+      | _ => "bad-op"
+    | _, _, _ => "bad-op"
   | ["eps", cs] =>
     -- orientation of every stored name relative to ascending bit order, and the bit-ordered signature
     match parseCfg cs with
